@@ -33,7 +33,7 @@ def _pad(s, n, ch="x"):
 
 def concretise(pack, algo):
     """abstract token -> concrete string.  User tokens: u1, u2 (storable), u1.pre / u1.case / u1.ext / u2.pre / u1.max /
-    x.empty / unk (attempt-only).  Password tokens: b, pre, cas, emp (storable or attempt), ext, nul, max, hashof."""
+    x.empty / unk (attempt-only).  Password tokens: b, pre, cas, emp (storable or attempt), ext, nul, rep, max, hashof."""
     if pack == "ascii":
         u1, u2, b = "alice", "bob", "Secr3t-pw"
         cas, u1case = b.swapcase(), "Alice"
@@ -58,9 +58,11 @@ def concretise(pack, algo):
         raise vlib.MachineryError("unknown pack " + pack)
     names = {"u1": u1, "u2": u2, "u1.pre": u1[:-2] if pack == "nested" else u1[:-1], "u1.case": u1case, "u1.ext": u1 + "x",
              "u2.pre": u2[:-2] if pack == "nested" else u2[:-1], "u1.max": _pad(u1, 65535, "a"), "x.empty": "", "unk": "mallory"}
-    pws = {"b": b, "pre": b[:-1], "cas": cas, "emp": "", "ext": b + "x", "nul": b + "\x00", "max": _pad(b, 65535)}
+    # rep: the password, a NUL byte, the password again (bcrypt expands its key cyclically, with a NUL appended)
+    pws = {"b": b, "pre": b[:-1], "cas": cas, "emp": "", "ext": b + "x", "nul": b + "\x00", "max": _pad(b, 65535),
+           "rep": b + "\x00" + b}
     if pack == "maxstored":
-        del pws["ext"], pws["max"]
+        del pws["ext"], pws["max"], pws["rep"]
         pws["nul"] = b[:-1] + "\x00"
     if algo in ("md5", "sha256"):
         pws["hashof"] = hashlib.new(algo, b.encode("utf-8")).hexdigest()
@@ -87,7 +89,7 @@ CONSTANTS
 VIEW view
 ACTION_CONSTRAINT DumpAC
 INVARIANTS TypeOK %(fileinv)s
-PROPERTIES AcceptIff RestartLoadsFile PreAuthInert ConnectKeepsAccounts
+PROPERTIES %(acceptiff)s RestartLoadsFile PreAuthInert ConnectKeepsAccounts
 """
 
 
@@ -152,7 +154,9 @@ def run_pack(ctx, spec):
     ])
     cfg = CFG % {"emptypw": tla_str("emp" if "emp" in stored else "-"), "algo": tla_str(algo),
                  "fileinv": "" if "relpath" in dev else "FileEqualsAccountsAfterOp",
-                 "aftertakeover": "TRUE" if spec.get("after_takeover") else "FALSE"}
+                 "aftertakeover": "TRUE" if spec.get("after_takeover") else "FALSE",
+                 # a deviation models a known finding: the design-level property it breaks is not checked in that run
+                 "acceptiff": "" if "authmethod_rejected" in dev else "AcceptIff"}
     res, out, rc = ctx.tlc_piped("AuthGate", body, cfg,
                                  [os.path.join(bindir, "authgate"), "-meta", mpath, "-workers", str(spec.get("workers", 16))],
                                  name="AuthGate_" + name, workers=spec.get("tlc_workers", 2), timeout=spec.get("timeout", 1500))
@@ -195,3 +199,31 @@ def run_many(ctx, specs, parallel=4):
     finally:
         cleanup_roots(ctx)
     return results
+
+
+def replay(ctx, obj):
+    """re-execute the stored transition of a replay artefact (evidence/replays/C19_*.json); returns (summary, divs)"""
+    import subprocess
+    bindir = ctx.go_build(["./cmd/authgate"])
+    meta = dict(obj["meta"])
+    root = scratch_root(ctx, "replay")
+    meta["root"] = root
+    mpath = os.path.join(ctx.tmp("meta"), "authgate_replay.json")
+    with open(mpath, "w") as fh:
+        json.dump(meta, fh)
+    try:
+        r = subprocess.run([os.path.join(bindir, "authgate"), "-raw", "-meta", mpath, "-workers", "1"],
+                           input=json.dumps(obj["transition"]) + "\n", stdout=subprocess.PIPE, stderr=subprocess.PIPE, text=True, timeout=300)
+    finally:
+        cleanup_roots(ctx)
+    if r.returncode != 0:
+        raise vlib.MachineryError("authgate replayer failed rc=%s: %s" % (r.returncode, r.stderr[-2000:]))
+    summary, divs = None, []
+    for line in r.stdout.splitlines():
+        o = json.loads(line)
+        if o["kind"] == "summary":
+            summary = o
+        elif o["kind"] == "div":
+            o.update({"pack": meta["pack"], "algo": meta["algo"], "mode": meta["mode"], "meta_file": obj["meta"], "dev": obj.get("deviations", [])})
+            divs.append(o)
+    return summary, divs
